@@ -56,7 +56,7 @@ def expected_ibd(t, pairs, min_span, max_time):
 
 def main():
     run = O.Run("c19_ibd")
-    N = run.budget(400, 4000)
+    N = run.budget(8000, 80000)
     run.scope = ("%d seeded small tree sequences (integer coordinates) x within / between sample sets x min_span (incl. values "
                  "equal to a segment span) x max_time (incl. node times) x store_pairs/store_segments" % N)
     for k in range(N):
